@@ -250,8 +250,11 @@ def registry(nxt='all', cfg='s1', shape=1, upd='run', data='bytes', cfg2=None):
         steps = {}
         if cfg == 's2':
             stream = '%s == %s + %s' % (S, OS, msg)
+            # (recalled facts: the solver ladder also tries the last few hypotheses only)
+            steps = {'r_stream': stream, 'r_len': 'len(%s) == %s + old(self._cumul_msg_len)' % (OS, PST)}
         elif cfg == 's1':
             stream = '%s == %s + spec.aead2.zpad(len(%s)) + %s' % (S, OS, OS, msg)
+            steps = {'r_stream': stream, 'a_end': 'len(%s) == %s' % (OS, AEND), 'p_start': '%s + len(spec.aead2.zpad(%s)) == %s' % (AEND, AEND, PST)}
         else:
             stream = '%s == %s + %s + b"".join(old(self._cache)) + spec.aead2.zpad(%s) + %s' % (S, B0, HDR, AEND, msg)
             steps = {'r_stream': stream, 'a_end': 'len(%s) + len(%s) + len(b"".join(old(self._cache))) == %s' % (B0, HDR, AEND),
@@ -392,7 +395,8 @@ def _unit(prop, func, nxt='all', cfg='s1', shape=1, **kw):
     from vf.pyunit import pyvc_unit
     uid = 'ccm.%s.%s.%s' % (func, cfg, nxt) + ('.n%d' % shape if cfg in PARKED + ('dd',) and shape != 1 else '') + \
           ''.join('.%s' % v for k, v in sorted(kw.items()) if k != 'cfg2')
-    return pyvc_unit(prop, uid, lambda: registry(nxt=nxt, cfg=cfg, shape=shape, **kw), [C + '.' + func])
+    # 60 s per query instead of 30: the stepwise proofs need < 8 s on an idle machine, the larger budget is for a loaded one
+    return pyvc_unit(prop, uid, lambda: registry(nxt=nxt, cfg=cfg, shape=shape, **kw), [C + '.' + func], timeout_ms=60000)
 
 
 def units(prop, tier):
@@ -442,3 +446,29 @@ def units(prop, tier):
 
 
 REACH_NEXT = {'s1': 'all', 's2': 'ed', 'nn': 'all', 'nd': 'all', 'dn': 'all', 't1': 'd', 't2': 'd'}
+
+
+# ------------------------------------------------------------------------------------------------------------------------------------
+# ASSUMED (used at call sites, not proved here; see contracts/aead2_common.py): native CBC object (last cipher block of everything fed ==
+#   spec.aead2.cbcmac), native CTR object (output == data xor spec.aead2.ctr_ks at the running position), <cipher module>.new dispatch,
+#   strxor (bytewise, exact for <= 32 bytes), long_to_bytes (minimal length / exact block encoding), BLAKE2s-160 comparison (injective, 2^-160),
+#   get_random_bytes.  Bounded harnesses: bounded/modes.py (CBC, CTR, CCM one-shot / segmentation / buffers), bounded/accel.py (strxor),
+#   bounded/bigint.py (long_to_bytes), bounded/hashes.py (BLAKE2s).
+# TRUSTED STEP: the parked list is instantiated per shape (0..3 segments); see the module docstring.
+# NOT PROVED: _create_ccm_cipher (keyword popping + default nonce/mac_len; it needs CcmMode.__init__ inlined through the **kwargs record) -- not registered.
+# NOT PROVED: output= (bytearray/memoryview destination) paths of encrypt()/decrypt(): the contracts are stated for output=None only.
+# NOT PROVED: valid(self) after a ValueError (length refusals); e.g. update() beyond assoc_len leaves _cumul_assoc_len already increased.
+# NOTE (domain, not a property of the list): CcmMode(assoc_len >= 2**64, msg_len declared) is accepted and would format a non-standard length
+#   header (SP 800-38C requires a < 2^64); unreachable in practice because that much data cannot be supplied before digest().
+#
+# Mutants (tools/mut.py, lib/Crypto/Cipher/_mode_ccm.py; every one gave exit 1 on the named obligation, the benign one exit 0):
+#   M1 C09 _update: `filler = min(self.block_size - len(self._cache) - 1, ...`            -> ccm._update ensures.stream
+#   M2 C01 _start_mac: `flags |= ((self._mac_len - 2) // 2) << 2`                          -> _start_mac lemma.flags
+#   M3 C01 _start_mac: `if self._assoc_len < (2 ** 16):` (header form boundary)            -> _start_mac lemma.hdr
+#   M4 C01 _digest: `strxor(self._t, self._s_0)[:self._mac_len - 1]`                       -> _digest ensures.tag (+ inv44 tag length)
+#   M5 C10 encrypt: `self._next = ["encrypt", "digest", "update"]`                         -> encrypt ensures.next (+ inv23)
+#   M6 C10 update: `self._cumul_assoc_len >= self._assoc_len`                              -> update raises_iff.ValueError.only_if
+#   M7 C11 encrypt: `len(long_to_bytes(len(plaintext))) > q + 1`                           -> encrypt call_pre of _start_mac (msg_len < 256**q)
+#   M8 C02 __init__: `nonce=struct.pack("B", q) + self.nonce` (counter block flags)        -> __init__ ensures.inv05 (S_0) / inv10 (Ctr_0)
+#   M9 C09 _update (parking): `if False:` instead of `if is_writeable_buffer(...)`         -> _update ensures.immutable_copy
+#   B1 C09 _update: local `filler` renamed to `fill_n`                                     -> exit 0
